@@ -744,19 +744,28 @@ class HfProtocol(utils.EventEmitter):
         self.read_buffer.extend(data)
 
         while self.read_buffer:
-            # Locate header and trailer.
-            header = self.read_buffer.find(b'\r\n')
-            trailer = self.read_buffer.find(b'\r\n', header + 2)
-            if header == -1 or trailer == -1:
+            # Result codes are framed as <cr><lf>text<cr><lf>: split the stream on
+            # the delimiter and skip the empty segments between two result codes,
+            # so that stray bytes or delimiters cannot shift the framing of
+            # everything that follows.
+            trailer = self.read_buffer.find(b'\r\n')
+            if trailer == -1:
                 return
 
-            # Isolate the AT response code and parameters.
-            raw_response = self.read_buffer[header + 2 : trailer]
-            response = AtResponse.parse_from(raw_response)
-            logger.debug(f"<<< {raw_response.decode()}")
-
-            # Consume the response bytes.
+            # Isolate the AT response code and parameters and consume their bytes
+            # before parsing them, so that a response that cannot be parsed is not
+            # parsed again each time more data is received.
+            raw_response = self.read_buffer[:trailer]
             self.read_buffer = self.read_buffer[trailer + 2 :]
+            if not raw_response:
+                continue
+
+            try:
+                response = AtResponse.parse_from(raw_response)
+            except ValueError as error:
+                logger.warning('Invalid AT response %r: %s', bytes(raw_response), error)
+                continue
+            logger.debug(f"<<< {raw_response.decode(errors='replace')}")
 
             # Forward the received code to the correct queue.
             if self.pending_command and (
